@@ -47,6 +47,9 @@ func sigdbInit() {
 	add("c3", derLike("c3", 900), "c3")
 	add("p1", pem.EncodeToMemory(&pem.Block{Type: "CERTIFICATE", Bytes: sigdbData["c1"].bytes}), "c1")
 	add("p3", pem.EncodeToMemory(&pem.Block{Type: "CERTIFICATE", Bytes: sigdbData["c3"].bytes}), "c3")
+	// PEM as tools emit it: explanatory text / blank line in front of the BEGIN line (RFC 7468 allows it)
+	add("p1b", append([]byte("Bag Attributes\n    friendlyName: verif\nsubject=CN = verif\n\n"), sigdbData["p1"].bytes...), "c1")
+	add("p3n", append([]byte("\n"), sigdbData["p3"].bytes...), "c3")
 	add("s1", prbytes("s1", 20), "s1")
 	add("u1", prbytes("u1", 40), "u1")
 }
@@ -230,7 +233,16 @@ func runSigdb(sc M) {
 				res = "ok"
 			case "recode":
 				b := db.Bytes()
-				nd, err := signature.ReadSignatureDatabase(bytes.NewReader(b))
+				var nd signature.SignatureDatabase
+				var err error
+				if i%2 == 0 {
+					nd, err = signature.ReadSignatureDatabase(bytes.NewReader(b))
+				} else {
+					// decode into an object that already holds a database (it must be replaced, not extended)
+					cp := signature.SignatureDatabase(append([]*signature.SignatureList{}, (*db)...))
+					err = cp.Unmarshal(bytes.NewBuffer(append([]byte{}, b...)))
+					nd = cp
+				}
 				if err != nil {
 					res = "error"
 					return nil
